@@ -1,6 +1,7 @@
 import ZV.Model.C15
 import ZV.Proofs.Wire
 import ZV.Proofs.C15
+import ZV.Generated.C15
 /-!
   C15 — browser revocation sets parse faithfully and decide membership exactly.
 
@@ -133,6 +134,34 @@ theorem crlset_check_encoded (hdrBytes : Bytes) (h : Hdr) (m : List (Bytes × Li
       · simp only [List.mem_map]
         exact ⟨n, hn2, hs⟩
 
+
+/-- distinct SPKI hashes give distinct map keys (hex.EncodeToString is injective), so "no issuer occurs in two
+    blocks" can be stated on the raw 32-byte hashes -/
+theorem nodupIssuers_of_spki (m : List (Bytes × List Nat)) (h : (m.map (·.1)).Nodup) : NodupIssuers m := by
+  unfold NodupIssuers
+  induction m with
+  | nil => simp
+  | cons b rest ih =>
+    simp only [List.map_cons, List.nodup_cons, List.mem_map, not_exists, not_and] at h ⊢
+    refine ⟨?_, ih h.2⟩
+    intro x hx he
+    exact h.1 x hx (hexStr_inj _ _ he)
+
+/-- `crlset_check_encoded` with the hypothesis on the raw SPKI hashes and the match on the hash bytes -/
+theorem crlset_check_encoded_spki (hdrBytes : Bytes) (h : Hdr) (m : List (Bytes × List Nat)) (bs : Bytes) (s : CRLSet)
+    (hj : h.jsonOk = true) (hn : (m.map (·.1)).Nodup) (he : csEncode hdrBytes m = .ok bs) (hp : csParse bs h = .ok s)
+    (serial : Int) (spki : Bytes) :
+    (csCheck s serial (hexStr spki)).isSome = true ↔
+      hexStr spki ∈ h.blocked ∨ ∃ b ∈ m, b.1 = spki ∧ ∃ n ∈ b.2, (n : Int) = serial := by
+  rw [crlset_check_encoded hdrBytes h m bs s hj (nodupIssuers_of_spki m hn) he hp]
+  constructor
+  · rintro (h1 | ⟨b, hb, hk, hx⟩)
+    · exact Or.inl h1
+    · exact Or.inr ⟨b, hb, hexStr_inj _ _ hk, hx⟩
+  · rintro (h1 | ⟨b, hb, hk, hx⟩)
+    · exact Or.inl h1
+    · exact Or.inr ⟨b, hb, by rw [hk], hx⟩
+
 theorem crlset_parse_no_panic (inp : Bytes) (h : Hdr) : csParse inp h ≠ .panic := by
   unfold csParse
   cases hg : getHeader inp h with
@@ -154,27 +183,145 @@ theorem crlset_parse_no_panic (inp : Bytes) (h : Hdr) : csParse inp h ≠ .panic
 
 /-! ## OneCRL -/
 
-/-- the record-to-entry mapping of Entry.UnmarshalJSON -/
-theorem onecrl_entry_serial (r : Rec) (iss : Str) (s : Int) :
-    unmarshalEntry r = .ok (.serial iss s) ↔
-      r.isNull = false ∧ (r.subjNonEmpty && r.pkhNonEmpty) = false ∧ r.issuerDec = .good iss ∧ s = Int.ofNat r.serial := by
-  unfold unmarshalEntry
-  cases r.isNull <;> cases hb : (r.subjNonEmpty && r.pkhNonEmpty) <;> simp
-  · cases r.issuerDec <;> simp
-    exact fun _ => eq_comm
-  · cases r.subjDec <;> simp
-    cases r.pkhDec <;> simp
+/-- base64.StdEncoding.DecodeString inverts EncodeToString on EVERY byte string (no error, exactly the bytes):
+    the OneCRL fields written by a well-behaved producer decode to what was encoded. -/
+theorem b64_decode_encode (bs : Bytes) : b64Decode (b64Encode bs) = (bs, false) := b64Decode_encode bs
 
-theorem onecrl_entry_blocked (r : Rec) (raw pk : Bytes) :
-    unmarshalEntry r = .ok (.blocked raw pk) ↔
-      r.isNull = false ∧ r.subjNonEmpty = true ∧ r.pkhNonEmpty = true ∧ r.subjDec = .good raw ∧ r.pkhDec = .good pk := by
+/-- an error of the decoder never loses what was decoded before it: the bytes returned next to an error extend …
+    (the serial-number field of an entry is built from them, the error being ignored).  Stated for the shape that
+    occurs in practice: a valid encoding followed by a character outside the alphabet. -/
+theorem b64_decode_garbage_after (bs : Bytes) (c : UInt8) (rest : Str) (hlen : bs.length % 3 = 0)
+    (hc : b64Val c = none) (hnl : isNL c = false) (hp : c ≠ 61) :
+    b64Decode (b64Encode bs ++ c :: rest) = (bs, true) := by
+  unfold b64Decode
+  have key : ∀ (bs : Bytes) (out : Bytes), bs.length % 3 = 0 →
+      b64Go (b64Encode bs ++ c :: rest) [] out = (out ++ bs, true) := by
+    intro bs
+    induction bs using b64Encode.induct with
+    | case1 => intro out _; simp [b64Encode, b64Go, hc, hnl, hp]
+    | case2 a => intro out h; simp at h
+    | case3 a b => intro out h; simp at h
+    | case4 a b c' rest' ih =>
+      intro out h
+      have ha := a.toNat_lt; have hb := b.toNat_lt; have hc' := c'.toNat_lt
+      simp only [b64Encode, List.cons_append]
+      rw [go_val _ _ _ _ _ (b64Val_b64Char _ (by omega)) (by simp)]
+      rw [go_val _ _ _ _ _ (b64Val_b64Char _ (by omega)) (by simp)]
+      rw [go_val _ _ _ _ _ (b64Val_b64Char _ (by omega)) (by simp)]
+      rw [go_val3 _ _ _ _ _ (b64Val_b64Char _ (by omega)) (by simp)]
+      have h' : rest'.length % 3 = 0 := by simp only [List.length_cons] at h; omega
+      simp [q4, ih _ h']
+  simpa using key bs [] hlen
+
+/-- the record-to-entry mapping of Entry.UnmarshalJSON, over the raw JSON string fields -/
+theorem onecrl_entry_serial (r : Rec) (ntbl : Bytes → Option Str) (iss : Str) (s : Int) :
+    unmarshalEntry r ntbl = .ok (.serial iss s) ↔
+      r.isNull = false ∧ (r.subject = [] ∨ r.pubKeyHash = []) ∧ (b64Decode r.issuerName).2 = false ∧
+      ntbl (b64Decode r.issuerName).1 = some iss ∧ s = Int.ofNat (beVal (b64Decode r.serialNumber).1) := by
   unfold unmarshalEntry
-  cases r.isNull <;> cases r.subjNonEmpty <;> cases r.pkhNonEmpty <;> simp
-  · cases r.issuerDec <;> simp
-  · cases r.issuerDec <;> simp
-  · cases r.issuerDec <;> simp
-  · cases r.subjDec <;> simp
-    cases r.pkhDec <;> simp
+  by_cases hn : r.isNull = true
+  · simp [hn]
+  · by_cases hc : (!r.subject.isEmpty && !r.pubKeyHash.isEmpty) = true
+    · have hc' := (cond_iff r).mp hc
+      simp only [hn, hc, Bool.false_eq_true, ↓reduceIte]
+      constructor
+      · intro h
+        cases hd : decodePkixName r.subject ntbl with
+        | ok p =>
+          rw [hd] at h
+          by_cases hx : (b64Decode r.pubKeyHash).2 = true <;> simp [hx] at h
+        | err => rw [hd] at h; cases h
+        | panic => rw [hd] at h; cases h
+      · rintro ⟨_, h | h, _⟩
+        · exact absurd h hc'.1
+        · exact absurd h hc'.2
+    · have hc' : r.subject = [] ∨ r.pubKeyHash = [] := by
+        have := (not_congr (cond_iff r)).mp hc
+        by_cases h1 : r.subject = []
+        · exact Or.inl h1
+        · by_cases h2 : r.pubKeyHash = []
+          · exact Or.inr h2
+          · exact absurd ⟨h1, h2⟩ this
+      simp only [hn, hc, Bool.false_eq_true, ↓reduceIte]
+      cases hd : decodePkixName r.issuerName ntbl with
+      | ok p =>
+        obtain ⟨i, raw⟩ := p
+        have := (decodePkixName_ok _ _ _ _).mp hd
+        dsimp only
+        simp only [Res.ok.injEq, OEntry.serial.injEq]
+        constructor
+        · rintro ⟨h1, h2⟩
+          subst h1 h2
+          refine ⟨by simpa using hn, hc', by rw [this.1], ?_, rfl⟩
+          rw [this.1]; exact this.2
+        · rintro ⟨_, _, h3, h4, h5⟩
+          rw [this.1] at h4
+          simp only at h4
+          rw [this.2] at h4
+          cases h4
+          exact ⟨rfl, h5.symm⟩
+      | err =>
+        simp only
+        constructor
+        · intro h; cases h
+        · rintro ⟨_, _, h3, h4, _⟩
+          have : decodePkixName r.issuerName ntbl = .ok (iss, (b64Decode r.issuerName).1) :=
+            (decodePkixName_ok _ _ _ _).mpr ⟨by rw [← h3], h4⟩
+          rw [this] at hd; cases hd
+      | panic => exact absurd hd (decodePkixName_noPanic _ _)
+
+theorem onecrl_entry_blocked (r : Rec) (ntbl : Bytes → Option Str) (raw pk : Bytes) :
+    unmarshalEntry r ntbl = .ok (.blocked raw pk) ↔
+      r.isNull = false ∧ r.subject ≠ [] ∧ r.pubKeyHash ≠ [] ∧ b64Decode r.subject = (raw, false) ∧
+      (ntbl raw).isSome = true ∧ b64Decode r.pubKeyHash = (pk, false) := by
+  unfold unmarshalEntry
+  by_cases hn : r.isNull = true
+  · simp [hn]
+  · by_cases hc : (!r.subject.isEmpty && !r.pubKeyHash.isEmpty) = true
+    · have hc' := (cond_iff r).mp hc
+      simp only [hn, hc, Bool.false_eq_true, ↓reduceIte]
+      cases hd : decodePkixName r.subject ntbl with
+      | ok p =>
+        obtain ⟨i, raw'⟩ := p
+        have hk := (decodePkixName_ok _ _ _ _).mp hd
+        simp only
+        cases he : (b64Decode r.pubKeyHash).2
+        · simp only [Bool.false_eq_true, if_false, Res.ok.injEq, OEntry.blocked.injEq]
+          constructor
+          · rintro ⟨h1, h2⟩
+            subst h1 h2
+            refine ⟨by simpa using hn, hc'.1, hc'.2, hk.1, by rw [hk.2]; rfl, by rw [← he]⟩
+          · rintro ⟨_, _, _, h1, _, h2⟩
+            rw [hk.1] at h1
+            cases h1
+            rw [h2]
+            exact ⟨rfl, rfl⟩
+        · simp only [if_true]
+          constructor
+          · intro h; cases h
+          · rintro ⟨_, _, _, _, _, h2⟩
+            rw [h2] at he; cases he
+      | err =>
+        simp only
+        constructor
+        · intro h; cases h
+        · rintro ⟨_, _, _, h1, h2, _⟩
+          cases ht : ntbl raw with
+          | none => rw [ht] at h2; cases h2
+          | some x =>
+            have : decodePkixName r.subject ntbl = .ok (x, raw) := (decodePkixName_ok _ _ _ _).mpr ⟨h1, ht⟩
+            rw [this] at hd; cases hd
+      | panic => exact absurd hd (decodePkixName_noPanic _ _)
+    · have := (not_congr (cond_iff r)).mp hc
+      simp only [hn, hc, Bool.false_eq_true, ↓reduceIte]
+      constructor
+      · intro h
+        cases hd : decodePkixName r.issuerName ntbl with
+        | ok p => rw [hd] at h; cases h
+        | err => rw [hd] at h; cases h
+        | panic => rw [hd] at h; cases h
+      · rintro ⟨_, h1, h2, _⟩
+        exact absurd ⟨h1, h2⟩ this
 
 theorem onecrl_group_listed (es : List OEntry) (acc : OneCRL) (k : Str) (x : Int) :
     listed (ocGroup es acc).issuers k x ↔ listed acc.issuers k x ∨ OEntry.serial k x ∈ es := by
@@ -208,8 +355,8 @@ theorem onecrl_group_blocked (es : List OEntry) (acc : OneCRL) (p : Bytes × Byt
 
 /-- OneCRL.Check reports a certificate exactly when the document has an entry for its (subject, key hash) or
     for its (issuer name, serial). -/
-theorem onecrl_check_iff (recs : List Rec) (es : List OEntry) (c : OneCRL)
-    (hu : unmarshalAll recs = .ok es) (hp : ocParse recs = .ok c)
+theorem onecrl_check_iff (recs : List Rec) (ntbl : Bytes → Option Str) (es : List OEntry) (c : OneCRL)
+    (hu : unmarshalAll recs ntbl = .ok es) (hp : ocParse recs ntbl = .ok c)
     (issuer : Str) (serial : Int) (rawSubject spkiHash : Bytes) :
     (ocCheck c issuer serial rawSubject spkiHash).isSome = true ↔
       OEntry.blocked rawSubject spkiHash ∈ es ∨ OEntry.serial issuer serial ∈ es := by
@@ -242,6 +389,139 @@ theorem onecrl_check_iff (recs : List Rec) (es : List OEntry) (c : OneCRL)
       simp only [Option.some.injEq, exists_eq_left']
       rw [← findSerial_isSome]
       cases findSerial l serial <;> simp
+
+
+/-! ### OneCRL documents written by an encoder: base64 of DER names / key hashes / minimal serial bytes -/
+
+/-- an entry of a OneCRL model: blocked (subject DER, key hash) or (issuer DER, serial) -/
+inductive MEntry where
+  | blocked (subjectDER keyHash : Bytes)
+  | serial (issuerDER : Bytes) (serial : Nat)
+  deriving DecidableEq
+
+/-- the JSON record fields an encoder writes for an entry -/
+def encRec : MEntry → Rec
+  | .blocked s k => ⟨false, b64Encode s, b64Encode k, [], []⟩
+  | .serial i n => ⟨false, [], [], b64Encode (natBE n), b64Encode i⟩
+
+/-- well-formed entry: the names are DER names the ASN.1 layer accepts; a blocked entry has a non-empty subject
+    and key hash (an empty one cannot be expressed: the code then reads the record as issuer/serial) -/
+def MEntryOk (ntbl : Bytes → Option Str) : MEntry → Prop
+  | .blocked s k => s ≠ [] ∧ k ≠ [] ∧ (ntbl s).isSome = true
+  | .serial i _ => (ntbl i).isSome = true
+
+/-- what an entry denotes in the parsed set (issuers keyed by Name.String(), as the code keys them) -/
+def denote (ntbl : Bytes → Option Str) : MEntry → OEntry
+  | .blocked s k => .blocked s k
+  | .serial i n =>
+    match ntbl i with
+    | some s => .serial s (Int.ofNat n)
+    | none => .serial [] (Int.ofNat n)
+
+theorem b64Encode_ne_nil (s : Bytes) (h : s ≠ []) : b64Encode s ≠ [] := by
+  intro h2
+  have := b64Encode_isEmpty s
+  rw [h2] at this
+  cases s with
+  | nil => exact h rfl
+  | cons _ _ => simp at this
+
+/-- a well-formed entry decodes to exactly what was encoded (base64 and serial bytes at byte level) -/
+theorem onecrl_entry_encoded (ntbl : Bytes → Option Str) (e : MEntry) (h : MEntryOk ntbl e) :
+    unmarshalEntry (encRec e) ntbl = .ok (denote ntbl e) := by
+  cases e with
+  | blocked s k =>
+    obtain ⟨h1, h2, h3⟩ := h
+    exact (onecrl_entry_blocked _ ntbl s k).mpr
+      ⟨rfl, b64Encode_ne_nil s h1, b64Encode_ne_nil k h2, b64Decode_encode s, h3, b64Decode_encode k⟩
+  | serial i n =>
+    simp only [MEntryOk] at h
+    cases ht : ntbl i with
+    | none => rw [ht] at h; cases h
+    | some x =>
+      simp only [denote, ht]
+      refine (onecrl_entry_serial _ ntbl x _).mpr ⟨rfl, Or.inl rfl, ?_, ?_, ?_⟩
+      · simp only [encRec]; rw [b64Decode_encode]
+      · simp only [encRec]; rw [b64Decode_encode]; exact ht
+      · simp only [encRec]; rw [b64Decode_encode, beVal_natBE]
+
+theorem onecrl_unmarshal_encoded (ntbl : Bytes → Option Str) (ms : List MEntry) (h : ∀ e ∈ ms, MEntryOk ntbl e) :
+    unmarshalAll (ms.map encRec) ntbl = .ok (ms.map (denote ntbl)) := by
+  induction ms with
+  | nil => rfl
+  | cons e rest ih =>
+    simp only [List.map_cons, unmarshalAll]
+    rw [onecrl_entry_encoded ntbl e (h e (by simp)), ih (fun x hx => h x (by simp [hx]))]
+
+/-- End to end for OneCRL: after parsing the records an encoder writes for the model `ms`, Check reports a
+    certificate exactly when `ms` has a blocked entry with its raw subject and key hash, or an entry whose issuer
+    DER name prints as the certificate's issuer and whose serial is the certificate's. -/
+theorem onecrl_check_encoded (ntbl : Bytes → Option Str) (ms : List MEntry) (c : OneCRL)
+    (hok : ∀ e ∈ ms, MEntryOk ntbl e) (hp : ocParse (ms.map encRec) ntbl = .ok c)
+    (issuer : Str) (serial : Int) (rawSubject spkiHash : Bytes) :
+    (ocCheck c issuer serial rawSubject spkiHash).isSome = true ↔
+      MEntry.blocked rawSubject spkiHash ∈ ms ∨
+      ∃ i n, MEntry.serial i n ∈ ms ∧ ntbl i = some issuer ∧ Int.ofNat n = serial := by
+  rw [onecrl_check_iff _ ntbl _ c (onecrl_unmarshal_encoded ntbl ms hok) hp]
+  simp only [List.mem_map]
+  constructor
+  · rintro (⟨e, he, hd⟩ | ⟨e, he, hd⟩)
+    · cases e with
+      | blocked s k => simp only [denote, OEntry.blocked.injEq] at hd; rw [← hd.1, ← hd.2]; exact Or.inl he
+      | serial i n => simp only [denote] at hd; split at hd <;> cases hd
+    · cases e with
+      | blocked s k => simp only [denote] at hd; cases hd
+      | serial i n =>
+        right
+        have hk := hok _ he
+        simp only [MEntryOk] at hk
+        simp only [denote] at hd
+        cases ht : ntbl i with
+        | none => rw [ht] at hk; cases hk
+        | some x =>
+          rw [ht] at hd
+          simp only [OEntry.serial.injEq] at hd
+          exact ⟨i, n, he, by rw [ht, hd.1], hd.2⟩
+  · rintro (h | ⟨i, n, he, ht, hs⟩)
+    · exact Or.inl ⟨_, h, rfl⟩
+    · right
+      refine ⟨_, he, ?_⟩
+      simp only [denote, ht, hs]
+
+theorem onecrl_parse_no_panic (recs : List Rec) (ntbl : Bytes → Option Str) : ocParse recs ntbl ≠ .panic := by
+  have he : ∀ r, unmarshalEntry r ntbl ≠ .panic := by
+    intro r
+    unfold unmarshalEntry
+    split
+    · simp
+    · split
+      · cases hd : decodePkixName r.subject ntbl with
+        | ok p => simp only; split <;> simp
+        | err => simp
+        | panic => exact absurd hd (decodePkixName_noPanic _ _)
+      · cases hd : decodePkixName r.issuerName ntbl with
+        | ok p => simp
+        | err => simp
+        | panic => exact absurd hd (decodePkixName_noPanic _ _)
+  have hall : unmarshalAll recs ntbl ≠ .panic := by
+    induction recs with
+    | nil => simp [unmarshalAll]
+    | cons r rest ih =>
+      simp only [unmarshalAll]
+      cases h1 : unmarshalEntry r ntbl with
+      | ok e =>
+        simp only
+        cases h2 : unmarshalAll rest ntbl with
+        | ok es => simp
+        | err => simp
+        | panic => exact absurd h2 ih
+      | err => simp
+      | panic => exact absurd h1 (he r)
+  unfold ocParse
+  cases h : unmarshalAll recs ntbl with
+  | ok es => simp
+  | err => simp
+  | panic => exact absurd h hall
 
 /-! ## Microsoft SST -/
 
@@ -302,6 +582,54 @@ theorem sst_parse_encode (certs : List Bytes) (tbl : Bytes → Option CertInfo) 
   rw [this]
   simp
 
+
+/-- A general well-formed store — property elements (any id other than 0 and 32, any format) interleaved with
+    certificate elements, end marker, anything after it — parses to exactly the grouping of its certificate
+    blobs in order: property elements are skipped by their declared length, nothing else is dropped or added. -/
+theorem sst_parse_encode_elems (es : List SstElem) (tail : Bytes) (tbl : Bytes → Option CertInfo)
+    (h : ∀ e ∈ es, SstElemOk e) :
+    msParse (sstEncodeElems es tail) tbl = msBuild (sstCerts es) tbl [] := by
+  unfold msParse sstEncodeElems
+  rw [readU32_leBytes 0 (by decide)]
+  simp only
+  have hm : ∀ x : Bytes, ¬ ((certMagic ++ x).length < 4) := by
+    intro x; simp [certMagic]
+  simp only [hm, if_false]
+  have hml : certMagic.length = 4 := rfl
+  rw [List.take_left' hml, List.drop_left' hml]
+  rw [sstLoop_elems es [] tail h]
+  simp
+
+theorem mem_sstCerts (es : List SstElem) (c : Bytes) : c ∈ sstCerts es ↔ ∃ e ∈ es, e.id = 32 ∧ e.value = c := by
+  induction es with
+  | nil => simp [sstCerts]
+  | cons e rest ih =>
+    simp only [sstCerts]
+    by_cases h : e.id = 32
+    · simp only [h, if_true, List.mem_cons, ih, exists_eq_or_imp, true_and]
+      constructor
+      · rintro (h1 | h1)
+        · exact Or.inl h1.symm
+        · exact Or.inr h1
+      · rintro (h1 | h1)
+        · exact Or.inl h1.symm
+        · exact Or.inr h1
+    · simp [h, ih]
+
+/-- End to end for the Microsoft store: after parsing a well-formed store, Check reports a certificate exactly
+    when the store has a certificate element whose certificate has that issuer name and serial. -/
+theorem ms_check_encoded (es : List SstElem) (tail : Bytes) (tbl : Bytes → Option CertInfo) (d : List (Str × List Int))
+    (h : ∀ e ∈ es, SstElemOk e) (hp : msParse (sstEncodeElems es tail) tbl = .ok d) (issuer : Str) (serial : Int) :
+    (msCheck d issuer serial).isSome = true ↔ ∃ e ∈ es, e.id = 32 ∧ tbl e.value = some ⟨issuer, serial⟩ := by
+  rw [sst_parse_encode_elems es tail tbl h] at hp
+  rw [ms_check_iff _ tbl d hp]
+  constructor
+  · rintro ⟨c, hc, ht⟩
+    obtain ⟨e, he, h32, hv⟩ := (mem_sstCerts es c).mp hc
+    exact ⟨e, he, h32, by rw [hv]; exact ht⟩
+  · rintro ⟨e, he, h32, ht⟩
+    exact ⟨e.value, (mem_sstCerts es _).mpr ⟨e, he, h32, rfl⟩, ht⟩
+
 /-- a store that parses holds only parsable certificates (D4: the unfixed code dereferenced nil here) -/
 theorem ms_build_ok_all_parse (certs : List Bytes) (tbl : Bytes → Option CertInfo) (acc d : List (Str × List Int))
     (h : msBuild certs tbl acc = .ok d) : ∀ c ∈ certs, (tbl c).isSome = true := by
@@ -319,13 +647,53 @@ theorem ms_build_ok_all_parse (certs : List Bytes) (tbl : Bytes → Option CertI
       · rw [hx, ht]; rfl
       · exact ih _ h x hx
 
+/-! ## T1: the constants of the model are the constants of the source (regenerated on every run) -/
+
+/-- the CRLSet block format of the model is built from the field widths declared in google.go -/
+theorem t1_crlset_block_format :
+    blockFmt = pair (bytesN Gen.spkiHashLen)
+      (countList (uintLE Gen.numSerialsWidth) (piso beVal (fun n => some (natBE n)) (varBytes (uintLE Gen.serialLenWidth)))) := rfl
+
+theorem t1_crlset_header_width : Gen.headerLenWidth = 2 := by decide
+
+/-- magic, version, end-marker id, certificate-element id and ASN.1 encoding type compared by microsoft.parse -/
+theorem t1_sst_constants :
+    certMagic = Gen.sstMagic ∧ Gen.sstVersion = 0 ∧ Gen.sstEndId = 0 ∧ Gen.sstCertId = 32 ∧ Gen.sstAsn1Format = 1 := by decide
+
+/-- the alphabet of the model's encoder is base64.StdEncoding's, value by value; so is the padding character -/
+theorem t1_b64_alphabet : (∀ v, v < 64 → Gen.b64Alphabet[v]? = some (b64Char v)) ∧ Gen.b64Pad = 61 := by decide
+
+set_option maxRecDepth 8192 in
+/-- the decode map of the model accepts exactly the characters of that alphabet (all 256 byte values) … -/
+theorem t1_b64_decode_map_domain :
+    ∀ n, n < 256 → ((b64Val (UInt8.ofNat n)).isSome = true ↔ UInt8.ofNat n ∈ Gen.b64Alphabet) := by decide
+
+/-- … and maps each to its index -/
+theorem t1_b64_decode_map_values : ∀ v, v < 64 → (Gen.b64Alphabet[v]?).bind b64Val = some v := by decide
+
 /-! ### non-vacuity -/
 example : NodupIssuers [(List.replicate 32 1, [5, 6]), (List.replicate 32 2, [])] := by unfold NodupIssuers; decide
 example : (csEncode [123, 125] [(List.replicate 32 1, []), (List.replicate 32 2, [])]).isOk = true := by decide
 example : natLE 300 = [44, 1] := by
   rw [natLE]; simp; rw [natLE]; simp; rw [natLE]; simp
-example : ∃ recs es, unmarshalAll recs = .ok es ∧ es.length = 2 :=
-  ⟨[⟨false, true, true, .good [1], .good [2], 0, .bad⟩, ⟨false, false, false, .bad, .bad, 7, .good [3]⟩], _, rfl, rfl⟩
+example : ∃ recs es, unmarshalAll recs (fun b => if b = [48, 0] then some [] else none) = .ok es ∧ es.length = 2 :=
+  ⟨[⟨false, b64Encode [48, 0], b64Encode [2], [], []⟩, ⟨false, [], [], b64Encode [7], b64Encode [48, 0]⟩],
+   [.blocked [48, 0] [2], .serial [] 7], by decide, rfl⟩
 example : ∃ d, msBuild [[1], [2]] (fun b => if b = [1] then some ⟨[65], 5⟩ else some ⟨[66], -3⟩) [] = .ok d := ⟨_, rfl⟩
+
+example : ∀ e ∈ [MEntry.blocked [48, 0] [2], MEntry.serial [48, 0] 300],
+    MEntryOk (fun b => if b = [48, 0] then some [] else none) e := by
+  intro e he
+  simp only [List.mem_cons, List.not_mem_nil, or_false] at he
+  rcases he with he | he <;> subst he <;> simp [MEntryOk]
+example : ∀ e ∈ [SstElem.mk 3 7 [1, 2], SstElem.mk 32 1 [9]], SstElemOk e := by
+  intro e he
+  simp only [List.mem_cons, List.not_mem_nil, or_false] at he
+  rcases he with he | he <;> subst he <;> simp [SstElemOk]
+example : b64Decode (b64Encode [1, 2, 3] ++ 33 :: [65]) = ([1, 2, 3], true) :=
+  b64_decode_garbage_after [1, 2, 3] 33 [65] rfl (by decide) (by decide) (by decide)
+/-- the serial field ignores the base64 error: "AQID!" denotes serial 0x010203, "!" denotes serial 0 -/
+example : unmarshalEntry ⟨false, [], [], [65, 81, 73, 68, 33], b64Encode [48, 0]⟩ (fun b => if b = [48, 0] then some [] else none)
+    = .ok (.serial [] 66051) := by decide
 
 end ZV.C15
